@@ -26,8 +26,9 @@ class BooleanNode(BaseNode):
         """ Set value using value_raw or arbitrary value
         """
         if value is None:  # == None
-            if self.value_raw:
-                self.value = BooleanType(self.cast_value())
+            # (a function or an expression may have produced False: only "nothing written" means no value)
+            if not (self.value_raw is None or (isinstance(self.value_raw, str) and self.value_raw=='')):
+                self.value = BooleanType(self.cast_value(self.value_raw))
             else:
                 self.value = None
         else:              # == True/False
